@@ -368,3 +368,185 @@ package solver
 //@   assert after-call LtEq#1 gekeep4: (old(isum(lits, weights, A, len(lits))) >= n) <==> cholds(ge, A)
 //@   assert exit elems: forall(k, 0, len(result), result[k] == ge || result[k] == le)
 //@   assert exit both: (ge.AtLeast > 0 ==> len(result) >= 1 && result[0] == ge) && (le.AtLeast > 0 ==> len(result) >= 1 && result[len(result)-1] == le)
+
+// ---------------------------------------------------------------- solving and optimisation (C03, C20)
+
+// what a live solver currently holds: its original-constraint list and its top-level bindings
+//@ define agreesL1(s *Solver, A asg) bool = forall(v, 0, len(s.model), (s.model[v] == 1 ==> A[v]) && (s.model[v] == -1 ==> !A[v]))
+//@ define smodels(s *Solver, A asg) bool = forall(i, 0, len(s.wl.origClauses), holds(s.wl.origClauses[i], A)) && agreesL1(s, A)
+//@ define costOf(s *Solver, A asg) int = psum(s.minLits, s.minWeights, A, len(s.minLits))
+//@ define WFopt(s *Solver) bool = s != nil && WFlen(s) && WFsep(s) && WFsepWl(s) && (s.minWeights == nil || len(s.minWeights) == len(s.minLits)) && forall(k, 0, len(s.minLits), 0 <= s.minLits[k] && s.minLits[k] < 2*s.nbVars) && forall(k, 0, len(s.minWeights), s.minWeights[k] >= 0) && s.nbVars <= 1073741824
+//@ define sameMin(s *Solver) bool = s.minLits == old(s.minLits) && s.minWeights == old(s.minWeights) && forall(k, 0, len(s.minLits), s.minLits[k] == old(s.minLits[k])) && forall(k, 0, len(s.minWeights), s.minWeights[k] == old(s.minWeights[k]))
+//@ define better(s *Solver, B asg, cost int) bool = cost == 0 || costOf(s, B) <= cost - 1
+//@ define total(s *Solver) bool = forall(v, 0, len(s.model), s.model[v] != 0)
+//@ define sameCost(s *Solver) bool = s.minLits == old(s.minLits) && s.minWeights == old(s.minWeights) && forall(k, 0, len(s.minLits), s.minLits[k] == old(s.minLits[k])) && forall(k, 0, len(s.minWeights), s.minWeights[k] == old(s.minWeights[k])) && s.hypothesis == old(s.hypothesis) && forall(k, 0, len(s.hypothesis), s.hypothesis[k] == old(s.hypothesis[k]))
+
+// Solve: the CDCL search is NOT verified; this contract is the standing assumption under which
+// the optimisation, enumeration and MUS glue is verified (DESIGN.md, C01).
+//@ func (*Solver).Solve
+//@   trusted
+//@   ghost A asg
+//@   requires wf: WFopt(s)
+//@   modifies s.*, all Clause.lits, all Clause.lbdValue, all Clause.activity, all pbData.weights, all pbData.watched, all []Lit, all []decLevel, all []bool, all []int, all []*Clause, all []watcher, all [][]watcher, all [][]*Clause, all []float64
+//@   ensures  status: result == s.status && (result == Sat || result == Unsat) && (old(s.status) == Unsat ==> result == Unsat)
+//@   ensures  wf:     WFopt(s) && s.nbVars == old(s.nbVars) && sameCost(s)
+//@   ensures  keepLM: result == Unsat ==> s.lastModel == old(s.lastModel) && forall(v, 0, len(s.lastModel), s.lastModel[v] == old(s.lastModel[v]))
+//@   ensures  sat:    result == Sat ==> total(s) && smodels(s, asgof(s.model)) && s.lastModel != nil && len(s.lastModel) == s.nbVars && forall(v, 0, s.nbVars, s.lastModel[v] == s.model[v])
+//@   ensures  unsat:  result == Unsat && old(s.status) != Unsat ==> !old(smodels(s, A))
+//@   ensures  same:   result == Sat ==> (smodels(s, A) <==> old(smodels(s, A)))
+//@   ensures  flags:  s.Verbose == old(s.Verbose) && s.Certified == old(s.Certified) && s.CertChan == old(s.CertChan) && s.CuttingPlanes == old(s.CuttingPlanes)
+
+// AppendClause: assumed here (its own verification is tracked under C09).
+//@ func (*Solver).AppendClause
+//@   trusted
+//@   ghost A asg
+//@   requires wf:  WFopt(s)
+//@   requires cl:  clause != nil && !clause.Learned() && clause.Cardinality() >= 1
+//@   modifies s.*, clause.*, all Clause.lits, all Clause.lbdValue, all pbData.weights, all pbData.watched, all []Lit, all []decLevel, all []bool, all []int, all []*Clause, all []watcher, all [][]watcher, all [][]*Clause, all []float64
+//@   ensures  wf:    WFopt(s) && s.nbVars >= old(s.nbVars) && sameCost(s)
+//@   ensures  keep:  s.status != Unsat ==> (smodels(s, A) <==> (old(smodels(s, A)) && old(holds(clause, A))))
+//@   ensures  unsat: s.status == Unsat && old(s.status) != Unsat ==> !(old(smodels(s, A)) && old(holds(clause, A)))
+//@   ensures  sticky: old(s.status) == Unsat ==> s.status == Unsat
+//@   ensures  flags:  s.Verbose == old(s.Verbose) && s.lastModel == old(s.lastModel) && forall(v, 0, len(s.lastModel), s.lastModel[v] == old(s.lastModel[v]))
+
+//@ func (*Solver).rebuildOrderHeap
+//@   trusted
+//@   modifies s.varQueue
+
+// Model: one boolean per variable, true iff the saved model binds the variable positively.
+//@ func (*Solver).Model
+//@   requires sat: s != nil && s.lastModel != nil && len(s.lastModel) <= s.nbVars && s.nbVars >= 0
+//@   ensures  shape: len(result) == s.nbVars && fresh(result)
+//@   ensures  vals:  forall(i, 0, len(s.lastModel), result[i] == (s.lastModel[i] > 0))
+//@   loop 1
+//@     invariant idx:  0 <= rangei && rangei <= len(s.lastModel) && len(res) == s.nbVars && fresh(res)
+//@     invariant vals: forall(i, 0, rangei, res[i] == (s.lastModel[i] > 0))
+
+// Optimal (relative to the Solve / AppendClause contracts above): the channel is closed exactly
+// once on every path; every delivered result carries the cost of its own model; delivered costs
+// strictly decrease; the returned result is the last one delivered; when the search ends with
+// Unsat no model of the original content is cheaper than the returned one (invariant sem + exit).
+//@ func (*Solver).Optimal
+//@   ghost A asg
+//@   requires wf: WFopt(s)
+//@   requires ch: results != nil ==> !closed(results)
+//@   requires small: (s.minWeights == nil && len(s.minLits) <= 1073741824) || (s.minWeights != nil && wsum(s.minWeights, len(s.minWeights)) <= 1073741824)
+//@   modifies s.*, all Clause.lits, all Clause.lbdValue, all Clause.activity, all pbData.weights, all pbData.watched, all []Lit, all []decLevel, all []bool, all []int, all []*Clause, all []watcher, all [][]watcher, all [][]*Clause, all []float64
+//@   ensures  closed: results != nil ==> closed(results)
+//@   ensures  last:   results != nil ==> nsent(results) > old(nsent(results)) && lastsent(results).Status == res.Status && lastsent(results).Weight == res.Weight && lastsent(results).Model == res.Model
+//@   sends results dec:   nsent(results) > old(nsent(results)) && msg.Status == Sat ==> lastsent(results).Status == Sat && msg.Weight < lastsent(results).Weight
+//@   sends results fresh: msg.Status == Sat ==> fresh(msg.Model)
+//@   sends results iter:  msg.Status == Sat && old(s.minLits != nil) ==> arr(msg.Model) > head(curalloc())
+//@   ensures  status: res.Status == Sat || res.Status == Unsat
+//@   ensures  unsat:  res.Status == Unsat && old(s.status) != Unsat ==> !old(smodels(s, A))
+//@   ensures  nocost: old(s.minLits == nil) && res.Status == Sat ==> res.Weight == 0
+//@   ensures  optimal: res.Status == Sat && old(s.status) != Unsat && old(s.minLits != nil) ==> forallasg(B, old(smodels(s, B)) ==> old(costOf(s, B)) >= res.Weight)
+//@   loop 1
+//@     modifies nothing
+//@     invariant idx: 0 <= rangei && rangei <= len(s.minWeights) && s.minWeights != nil
+//@     invariant sum: maxCost == wsum(s.minWeights, rangei) && maxCost >= 0
+//@   loop 2
+//@     modifies s.hypothesis[*]
+//@     invariant idx: 0 <= rangei && rangei <= len(s.minLits) && len(s.hypothesis) == len(s.minLits) && fresh(s.hypothesis)
+//@     invariant neg: forall(k, 0, rangei, s.hypothesis[k] == nlit(s.minLits[k]) && s.hypothesis[k] >= 0)
+//@     invariant keep: forall(k, 0, len(s.minLits), s.minLits[k] == entry2(s.minLits[k]))
+//@   loop 3
+//@     modifies weights[*]
+//@     invariant idx: 0 <= rangei && rangei <= len(weights) && len(weights) == len(s.minLits) && fresh(weights) && s.minWeights == nil
+//@     invariant ones: forall(k, 0, rangei, weights[k] == 1)
+//@   assert before-call Sort#1 entryEq: forallasg(B, smodels(s, B) <==> old(smodels(s, B)))
+//@   assert after-call Sort#1 entryEq2: forallasg(B, smodels(s, B) <==> old(smodels(s, B)))
+//@   assert after-call (*Solver).Model#2 inst0: asgmark(asgof(s.model))
+//@   assert after-call (*Solver).Model#2 resw: cost == costOf(s, asgof(s.model)) && forall(i, 0, len(s.lastModel), result[i] == (s.lastModel[i] > 0) && s.lastModel[i] == s.model[i])
+//@   assert exit e1: old(s.minLits != nil) && old(s.status) != Unsat && res.Status == Sat ==> forallasg(B, entry4(smodels(s, B)) <==> old(smodels(s, B)))
+//@   assert exit e2: forallasg(B, old(costOf(s, B)) == costOf(s, B))
+//@   assert exit nonneg: forallasg(B, lem_psum_le(s.minLits, s.minWeights, B, len(s.minLits)))
+//@   assert before-call Sort#1 keepSat: total(s) && smodels(s, asgof(s.model))
+//@   assert after-call Sort#1 keepSat2: total(s) && smodels(s, asgof(s.model))
+//@   assert before-call NewPBClause#1 le: lem_psum_le(s.minLits, s.minWeights, asgof(s.model), len(s.minLits)) && cost == costOf(s, asgof(s.model))
+//@   assert before-call NewPBClause#1 frameB: forallasg(B, smodels(s, B) <==> head(smodels(s, B)))
+//@   assert before-call NewPBClause#1 inst: asgmark(asgof(s.model))
+//@   assert after-call NewPBClause#1 cl: forallasg(B, holds(result, B) <==> (costOf(s, B) <= cost - 1))
+//@   assert after-call (*Solver).AppendClause#1 k1: s.status != Unsat ==> forallasg(B, smodels(s, B) <==> (prev(smodels(s, B)) && costOf(s, B) <= cost - 1))
+//@   assert after-call (*Solver).AppendClause#1 k1u: s.status == Unsat ==> forallasg(B, !(prev(smodels(s, B)) && costOf(s, B) <= cost - 1))
+//@   assert after-call (*Solver).Solve#2 k2: result == Sat ==> forallasg(B, smodels(s, B) <==> prev(smodels(s, B)))
+//@   assert after-call (*Solver).Solve#2 k2u: result == Unsat && prev(s.status) != Unsat ==> forallasg(B, !prev(smodels(s, B)))
+//@   assert body-end 4 dec: prev(res.Status) != Sat || res.Weight <= prev(res.Weight) - 1
+//@   assert before-call Sort#1 negsum: forallasg(B, lem_psum_negl(s.hypothesis, s.minLits, weights, B, len(s.minLits)))
+//@   assert before-call Sort#1 ones:   s.minWeights == nil ==> forallasg(B, lem_psum_ones(s.minLits, weights, B, len(s.minLits))) && lem_wsum_ones(weights, len(weights))
+//@   assert before-call Sort#1 H:      forallasg(B, psum(s.hypothesis, weights, B, len(s.hypothesis)) == maxCost - costOf(s, B))
+//@   sort Sort#1 modifies s.hypothesis[*], weights[*]
+//@   sort Sort#1 invariant lens: len(weights) == len(s.hypothesis) && len(s.hypothesis) == len(s.minLits)
+//@   sort Sort#1 invariant perm: forallasg(B, psum(s.hypothesis, weights, B, len(s.hypothesis)) == maxCost - costOf(s, B))
+//@   loop 4
+//@     invariant wf:    WFopt(s) && sameMin(s) && maxCost >= 0 && (s.minWeights == nil ==> maxCost == len(s.minLits)) && (s.minWeights != nil ==> maxCost == wsum(s.minWeights, len(s.minWeights)))
+//@     invariant shape: s.minLits != nil && len(s.hypothesis) == len(s.minLits) && len(weights) == len(s.minLits) && fresh(weights) && s.lastModel != nil && len(s.lastModel) <= s.nbVars && len(s.lastModel) <= len(s.model)
+//@     invariant H:     forallasg(B, psum(s.hypothesis, weights, B, len(s.hypothesis)) == maxCost - costOf(s, B))
+//@     invariant st1:   status == s.status
+//@     invariant st2:   status == Sat || status == Unsat
+//@     invariant st4:   status == Sat || res.Status == Sat
+//@     invariant sat:   status == Sat ==> total(s) && smodels(s, asgof(s.model))
+//@     invariant semOK: s.status != Unsat ==> forallasg(B, smodels(s, B) <==> (entry4(smodels(s, B)) && (res.Status != Sat || costOf(s, B) <= res.Weight - 1)))
+//@     invariant semUn: s.status == Unsat ==> forallasg(B, !(entry4(smodels(s, B)) && (res.Status != Sat || costOf(s, B) <= res.Weight - 1)))
+//@     invariant res:   (res.Status == Sat || res.Status == Indet) && (res.Status == Sat ==> res.Weight > 0)
+//@     invariant chan:  results != nil ==> !closed(results) && (res.Status == Sat ==> nsent(results) > old(nsent(results)) && lastsent(results).Status == Sat && lastsent(results).Weight == res.Weight && lastsent(results).Model == res.Model) && (res.Status != Sat ==> nsent(results) == old(nsent(results)))
+//@   loop 5
+//@     modifies nothing
+//@     invariant idx:   0 <= rangei && rangei <= len(s.minLits)
+//@     invariant cost:  cost == psum(s.minLits, s.minWeights, asgof(s.model), rangei) && cost >= 0
+
+// Minimize: same statement as Optimal for the integer-returning entry point.
+//@ func (*Solver).Minimize
+//@   ghost A asg
+//@   requires wf: WFopt(s)
+//@   requires small: (s.minWeights == nil && len(s.minLits) <= 1073741824) || (s.minWeights != nil && wsum(s.minWeights, len(s.minWeights)) <= 1073741824)
+//@   modifies s.*, all Clause.lits, all Clause.lbdValue, all Clause.activity, all pbData.weights, all pbData.watched, all []Lit, all []decLevel, all []bool, all []int, all []*Clause, all []watcher, all [][]watcher, all [][]*Clause, all []float64
+//@   ensures  range:  result >= -1
+//@   ensures  unsat:  result == -1 && old(s.status) != Unsat ==> !old(smodels(s, A))
+//@   ensures  nocost: old(s.minLits == nil) && old(s.status) != Unsat ==> result == 0 || result == -1
+//@   ensures  optimal: result >= 0 && old(s.status) != Unsat && old(s.minLits != nil) ==> forallasg(B, old(smodels(s, B)) ==> old(costOf(s, B)) >= result)
+//@   loop 1
+//@     modifies nothing
+//@     invariant idx: 0 <= rangei && rangei <= len(s.minWeights) && s.minWeights != nil
+//@     invariant sum: maxCost == wsum(s.minWeights, rangei) && maxCost >= 0
+//@   loop 2
+//@     modifies s.hypothesis[*]
+//@     invariant idx: 0 <= rangei && rangei <= len(s.minLits) && len(s.hypothesis) == len(s.minLits) && fresh(s.hypothesis)
+//@     invariant neg: forall(k, 0, rangei, s.hypothesis[k] == nlit(s.minLits[k]) && s.hypothesis[k] >= 0)
+//@     invariant keep: forall(k, 0, len(s.minLits), s.minLits[k] == entry2(s.minLits[k]))
+//@   loop 3
+//@     modifies weights[*]
+//@     invariant idx: 0 <= rangei && rangei <= len(weights) && len(weights) == len(s.minLits) && fresh(weights) && s.minWeights == nil
+//@     invariant ones: forall(k, 0, rangei, weights[k] == 1)
+//@   assert before-call Sort#1 entryEq: forallasg(B, smodels(s, B) <==> old(smodels(s, B)))
+//@   assert after-call Sort#1 entryEq2: forallasg(B, smodels(s, B) <==> old(smodels(s, B)))
+//@   assert before-call Sort#1 keepSat: total(s) && smodels(s, asgof(s.model))
+//@   assert after-call Sort#1 keepSat2: total(s) && smodels(s, asgof(s.model))
+//@   assert before-call Sort#1 negsum: forallasg(B, lem_psum_negl(s.hypothesis, s.minLits, weights, B, len(s.minLits)))
+//@   assert before-call Sort#1 ones:   s.minWeights == nil ==> forallasg(B, lem_psum_ones(s.minLits, weights, B, len(s.minLits))) && lem_wsum_ones(weights, len(weights))
+//@   assert before-call Sort#1 H:      forallasg(B, psum(s.hypothesis, weights, B, len(s.hypothesis)) == maxCost - costOf(s, B))
+//@   sort Sort#1 modifies s.hypothesis[*], weights[*]
+//@   sort Sort#1 invariant lens: len(weights) == len(s.hypothesis) && len(s.hypothesis) == len(s.minLits)
+//@   sort Sort#1 invariant perm: forallasg(B, psum(s.hypothesis, weights, B, len(s.hypothesis)) == maxCost - costOf(s, B))
+//@   assert before-call NewPBClause#1 frameB: forallasg(B, smodels(s, B) <==> head(smodels(s, B)))
+//@   assert before-call NewPBClause#1 le: lem_psum_le(s.minLits, s.minWeights, asgof(s.model), len(s.minLits)) && cost == costOf(s, asgof(s.model))
+//@   assert before-call NewPBClause#1 inst: asgmark(asgof(s.model))
+//@   assert after-call NewPBClause#1 cl: forallasg(B, holds(result, B) <==> (costOf(s, B) <= cost - 1))
+//@   assert after-call (*Solver).AppendClause#1 k1: s.status != Unsat ==> forallasg(B, smodels(s, B) <==> (prev(smodels(s, B)) && costOf(s, B) <= cost - 1))
+//@   assert after-call (*Solver).AppendClause#1 k1u: s.status == Unsat ==> forallasg(B, !(prev(smodels(s, B)) && costOf(s, B) <= cost - 1))
+//@   assert body-end 4 dec: prev(cost) == 0 || cost <= prev(cost) - 1
+//@   assert exit nonneg: forallasg(B, lem_psum_le(s.minLits, s.minWeights, B, len(s.minLits)))
+//@   loop 4
+//@     invariant wf:    WFopt(s) && sameMin(s) && maxCost >= 0 && (s.minWeights == nil ==> maxCost == len(s.minLits)) && (s.minWeights != nil ==> maxCost == wsum(s.minWeights, len(s.minWeights)))
+//@     invariant shape: s.minLits != nil && len(s.hypothesis) == len(s.minLits) && len(weights) == len(s.minLits) && fresh(weights) && s.lastModel != nil && len(s.lastModel) <= s.nbVars && len(s.lastModel) <= len(s.model)
+//@     invariant H:     forallasg(B, psum(s.hypothesis, weights, B, len(s.hypothesis)) == maxCost - costOf(s, B))
+//@     invariant st1:   status == s.status
+//@     invariant st2:   status == Sat || status == Unsat
+//@     invariant st3:   cost >= 0 && (status == Sat || cost > 0)
+//@     invariant sat:   status == Sat ==> total(s) && smodels(s, asgof(s.model))
+//@     invariant semOK: s.status != Unsat ==> forallasg(B, smodels(s, B) <==> (entry4(smodels(s, B)) && better(s, B, cost)))
+//@     invariant semUn: s.status == Unsat ==> forallasg(B, !(entry4(smodels(s, B)) && better(s, B, cost)))
+//@   loop 5
+//@     modifies nothing
+//@     invariant idx:   0 <= rangei && rangei <= len(s.minLits)
+//@     invariant cost:  cost == psum(s.minLits, s.minWeights, asgof(s.model), rangei) && cost >= 0
